@@ -18,10 +18,13 @@ int main(int argc, char** argv) {
         if (!only.empty() && only != kv.first) continue;
         dz::enter_kind(kv.first);
         for (int p = 0; p < 2; ++p) {
-            std::unique_ptr<dz::Box> shared(kv.second(p));
-            const dz::Box& S = *shared;
-            const uint64_t seq = dz::fnv(S.probe());
+            // the sequential digest comes from a separate object with the same parameters; the shared object of each round is FRESH:
+            // its first use happens inside the threads (lazily initialised caches are filled on first use)
+            std::unique_ptr<dz::Box> ref(kv.second(p));
+            const uint64_t seq = dz::fnv(ref->probe());
             for (int nt : tcounts) {
+                std::unique_ptr<dz::Box> shared(kv.second(p));
+                const dz::Box& S = *shared;
                 std::atomic<int> ok(0);
                 std::vector<std::thread> ts;
                 for (int t = 0; t < nt; ++t)
